@@ -58,6 +58,8 @@ func rebuild(t *Term, a []*Term) *Term {
 		return ZExt(t.Sort.W, a[0])
 	case "sext":
 		return SExt(t.Sort.W, a[0])
+	case "concat":
+		return Concat(a[0], a[1])
 	case "bvnot":
 		return BVNot(a[0])
 	case "bvneg":
